@@ -122,6 +122,42 @@ def manifest_sig(case, kind):
     return f"manifest:{mk}:{label if shp == 'lf' else '*'}:{shp}|{kind.split('|')[-1]}"
 
 
+FAULT_SRC = b"x = sum([i for i in range(3)])\ns = set([1, 2])\n"
+
+
+def fault_cases():
+    out = []
+    for kind in ("write-oserror", "raise-entry", "raise-node", "delete-before"):
+        for pos in range(3):
+            out.append((kind, pos))
+    for pos in range(2):
+        out.append(("codemod-raises", pos))
+    return out
+
+
+def fault_eval(case):
+    kind, pos = case
+    names = ["a.py", "pkg/b.py", "z.py"]
+    files = {n: FAULT_SRC for n in names}
+    cms = ["pixee:python/use-generator", "pixee:python/use-set-literal"]
+    if kind == "codemod-raises":
+        job = drive.Job(files=files, argv=["{dir}", "--codemod-include", ",".join(cms)], pre_hook="cmverif.faults:install_codemod_fault", pre_hook_arg={"codemod": cms[pos]})
+    else:
+        job = drive.Job(files=files, argv=["{dir}", "--codemod-include", ",".join(cms)], pre_hook="cmverif.faults:install",
+                        pre_hook_arg={"faults": [{"file": names[pos].split("/")[-1], "kind": kind, "at": "last", "only_transformer": None}]})
+    obs = drive.run_inproc(job)
+    if obs.error:
+        raise core.HarnessError(obs.error)
+    if obs.exit != 0 or obs.report is None:
+        return [], 0  # the run did not complete: no report to be faithful
+    before = dict(obs.before)
+    if kind == "delete-before":
+        before.pop(names[pos], None)
+    after = {k: v for k, v in obs.final.items()}
+    found = [(p_, k_, d_) for p_, k_, d_ in judge_run(before, after, obs.report.get("results")) if not (kind == "delete-before" and p_ == names[pos])]
+    return found, 1
+
+
 def explore(tier, seed):
     sf = udiff.selftest()
     coverage, violations = progcheck.run_monitor(
@@ -173,6 +209,24 @@ def explore(tier, seed):
                 divergence.append(sig)
                 continue
         violations.append(Violation(PROP, sig, f"{case}: {detail}"[:600], {"manifest_case": list(case), "kind": kind}, 1))
+    # (d) faults: IF a run completes although a write / transformer / whole codemod failed, the report must still be the truth
+    # about the disk - no file changed without a changeset, no changeset for an unchanged file, diffs still apply
+    fcases = fault_cases()
+    fres = drive.pmap("cmverif.checks.c03:fault_eval", fcases)
+    completed = 0
+    for case, (found, done) in zip(fcases, fres):
+        completed += done
+        for path, kind, detail in found:
+            sig = f"fault:{case[0]}:{case[1]}|{kind}"
+            if sig in {v.signature for v in violations}:
+                continue
+            if sig not in known_open:
+                again = [{(p_, k_) for p_, k_, _ in fault_eval(case)[0]} for _ in range(2)]
+                if not all((path, kind) in a for a in again):
+                    divergence.append(sig)
+                    continue
+            violations.append(Violation(PROP, sig, f"{case}: {path}: {detail}"[:600], {"fault_case": list(case), "path": path, "kind": kind}, 1))
+    coverage["fault_histories"] = {"cases": len(fcases), "runs_that_completed": completed}
     coverage["states"] += 3 * len(pairs) + len(cases)
     coverage["transitions"] += 3 * len(pairs) + len(cases)
     coverage["traces_validated_against_impl"] += 3 * len(pairs) + len(cases)
@@ -196,6 +250,9 @@ def replay(rp):
             out += [(nm, p_, k_, d_) for p_, k_, d_ in judge_run(before, lite["tree"], lite["results"])]
         hit = [o for o in out if (o[0], o[1], o[2]) == (rp["step"], rp["path"], rp["kind"])]
         return (not hit), "\n".join(map(str, out)) or "all diffs compose to the content on disk"
+    if rp.get("fault_case"):
+        found, done = fault_eval(tuple(rp["fault_case"]))
+        return ((rp["path"], rp["kind"]) not in {(p_, k_) for p_, k_, _ in found}), "\n".join(map(str, found)) or f"report faithful (run completed: {bool(done)})"
     if rp.get("manifest_case"):
         case = tuple(rp["manifest_case"])
         obs = drive.run_cli(manifest_job(case))
